@@ -78,6 +78,7 @@ type Interp struct {
 	pendingModel map[string]uint64
 	curInstr ssa.Instruction
 	allowInit *ssa.Function
+	pendingFp uint64
 	W       *Worker
 }
 
